@@ -9,13 +9,16 @@ Section Merge.
   Variable ptr_eq : N -> N -> bool.
 
   (* Python == on metadata.  ComplexType.__eq__ sorts both member lists by str(item) and compares
-     element-wise; modelled as: same length and every member of one side equal to some member of the other
-     (exact unless two different members share a sort key — see DESIGN 3.2). dict == dict ignores order. *)
+     element-wise; modelled as: same length, every member of the left side equal to some member of the right
+     side AND every member of the right side equal to some member of the left side (a one-sided matching is
+     unsound: [A; A'] with A == A' would equal [A; int]).  Exact unless two different members share a sort
+     key — see DESIGN 3.2.  dict == dict ignores order. *)
   Fixpoint py_eq (a b : ty) {struct a} : bool :=
     match a, b with
     | TUnion xs, TUnion ys =>
         Nat.eqb (length xs) (length ys) &&
-        (fix all l := match l with [] => true | x :: r => existsb (py_eq x) ys && all r end) xs
+        (fix all l := match l with [] => true | x :: r => existsb (py_eq x) ys && all r end) xs &&
+        forallb (fun y => (fix any l := match l with [] => false | x :: r => py_eq x y || any r end) xs) ys
     | TObj xs, TObj ys =>
         Nat.eqb (length xs) (length ys) &&
         (fix all l := match l with
